@@ -570,6 +570,36 @@ def r34_unwrap_or_else(sig, body):
     return sig, body, n
 
 
+def r35_write_line(sig, body):
+    """R35: a `write!(BUF, "fmt", …, X.line, …)[.unwrap()]` whose arguments include a `.line` field -> `verif_write_line(&mut BUF, X.line)` (the formatted text is dropped, the LINE NUMBER the message names is kept; apply before R22)"""
+    n = 0
+    pos = 0
+    while True:
+        m = re.search(r'\bwrite!\s*\(', body[pos:])
+        if not m:
+            break
+        op = pos + m.end() - 1
+        cl = _match_paren(body, op)
+        args = [a.strip() for a in _split_top(body[op + 1:cl])]
+        linearg = [a for a in args[2:] if re.search(r'\.\s*line$', a)]
+        if not linearg:
+            pos = cl + 1
+            continue
+        end = cl + 1
+        m2 = re.match(r'\s*\.\s*(unwrap\s*\(\s*\)|expect\s*\()', body[end:])
+        if m2:
+            if m2.group(1).startswith('expect'):
+                ep = end + m2.end() - 1
+                end = _match_paren(body, ep) + 1
+            else:
+                end = end + m2.end()
+        new = 'verif_write_line(&mut %s, %s)' % (args[0], linearg[0])
+        body = body[:pos + m.start()] + new + body[end:]
+        pos = pos + m.start() + len(new)
+        n += 1
+    return sig, body, n
+
+
 def _stmt_end(body, start):
     """position of the `;` that ends the statement starting at `start` (depth 0 w.r.t. brackets), or -1"""
     mask = rsx.code_mask(body)
@@ -916,6 +946,7 @@ RULES = {
     'R32': r32_stack_assign,
     'R33': r33_code_deref,
     'R34': r34_unwrap_or_else,
+    'R35': r35_write_line,
 }
 
 DESCRIPTIONS = {k: (v.__doc__ or '').strip() for k, v in RULES.items()}
